@@ -931,7 +931,7 @@ func vfSessTok(s *pb.Session) string {
 // getSessionJoining: the shard is hosted but can not make progress (nobody to join): the facade call and the local
 // call of the kind the shard's type needs, both with the same short deadline, no retries
 func (h *vfHost) getSessionJoining(api *NodehostAPI, shard uint64) (string, *pb.Session) {
-	const d = 60 * time.Millisecond
+	const d = time.Second // (a shard without a leader drops the request at once; the deadline only bounds the call)
 	var s *pb.Session
 	var err error
 	pan := vfGuard(func() {
@@ -970,6 +970,11 @@ func (h *vfHost) getSessionJoining(api *NodehostAPI, shard uint64) (string, *pb.
 		} else {
 			local = vfErrName(lerr)
 		}
+	}
+	// under heavy load the deadline can be nearly used up before dragonboat looks at it: infrastructure, the block is run again
+	if st, ok := status.FromError(err); (ok && st.Message() == dragonboat.ErrTimeoutTooSmall.Error()) ||
+		local == "ErrTimeoutTooSmall" {
+		return "infra deadline-used-up", nil
 	}
 	return fmt.Sprintf("jerr %s %s %s %s", vfCode(err), vfIsStatus(err), vfMsg(err), local), nil
 }
